@@ -5,8 +5,10 @@ Extracts, with Python's `ast` only (the module is never imported here):
   * `defaults`   the `_default_config` table of the settings class, in source
                  order, each value rendered as a token (see `enc_value`);
   * `setters`    the properties of the class that have a setter;
-  * `layers`     the arguments of the `self._config.update(...)` calls of
-                 `update_settings`, in source order (default < stored < user);
+  * `layers`     what the `self._config.update(...)` calls of `update_settings`
+                 lay over the memory, in source order: `self.<table>` or the
+                 `self.<file attribute>` a local was `json.load`ed from
+                 (default < stored < user);
   * `writers`    for `_set_setting` / `default_settings`: does the body call
                  `self._write()`;
   * `opaque`     every construct the translator did not understand (any entry
@@ -176,9 +178,21 @@ def extract(settings_py):
         return sorted(out, key=lambda n: (n.lineno, n.col_offset))
 
     if "update_settings" in funcs:
-        for c in self_calls(funcs["update_settings"], "_config.update"):
-            if len(c.args) == 1 and isinstance(c.args[0], ast.Name):
-                facts["layers"].append(c.args[0].id)
+        fn = funcs["update_settings"]
+        # local variable -> the `self.<attr>` file it was json-loaded from
+        loaded = {}
+        for n in ast.walk(fn):
+            if isinstance(n, ast.With) and len(n.items) == 1:
+                ce = n.items[0].context_expr
+                if isinstance(ce, ast.Call) and ast.unparse(ce.func) == "open" and ce.args \
+                        and isinstance(ce.args[0], ast.Attribute) and ast.unparse(ce.args[0].value) == "self":
+                    for b in ast.walk(n):
+                        if isinstance(b, ast.Assign) and len(b.targets) == 1 and isinstance(b.targets[0], ast.Name) \
+                                and isinstance(b.value, ast.Call) and ast.unparse(b.value.func) == "json.load":
+                            loaded[b.targets[0].id] = ce.args[0].attr
+        for c in self_calls(fn, "_config.update"):
+            if len(c.args) == 1 and isinstance(c.args[0], ast.Name) and c.args[0].id in loaded:
+                facts["layers"].append(loaded[c.args[0].id])
             elif len(c.args) == 1 and isinstance(c.args[0], ast.Attribute) and ast.unparse(c.args[0].value) == "self":
                 facts["layers"].append(c.args[0].attr)
             else:
@@ -219,7 +233,7 @@ def render(facts):
         "/-- properties of the settings class that have a setter -/",
         "def setters : List String := " + lst(lean_str(enc_key(s)) for s in facts["setters"]),
         "",
-        "/-- arguments of the `self._config.update(..)` calls of `update_settings`, in source order -/",
+        "/-- what the `self._config.update(..)` calls of `update_settings` lay over the memory, in source order -/",
         "def layers : List String := " + lst(lean_str(s) for s in facts["layers"]),
         "",
         "/-- does the method call `self._write()` -/",
@@ -227,7 +241,7 @@ def render(facts):
                                                         for n, b in facts["writers"]),
         "",
         "/-- constructs the translator did not understand (must be empty) -/",
-        "def opaque : List String := " + lst(lean_str(enc_key(s)) for s in facts["opaque"]),
+        "def untranslated : List String := " + lst(lean_str(enc_key(s)) for s in facts["opaque"]),
         "",
         "end SqVerif.Gen.Defaults",
         "",
